@@ -68,7 +68,9 @@ class CompositeFrontend(ConstrainedFrontend):
     def __setstate__(self, s):
         self._solvers, self._template_frontend, self._unsat, self._track, base_state = s
         self._owned_solvers = weakref.WeakSet(self._solver_list)
-        self._unchecked_solvers = weakref.WeakSet()
+        # which children had been checked is not part of the pickled state: check them all again (with none marked
+        # unchecked, check_satisfiability() looked at no child and a restored unsatisfiable solver said SAT)
+        self._unchecked_solvers = weakref.WeakSet(self._solver_list)
         super().__setstate__(base_state)
 
     def downsize(self):
